@@ -50,7 +50,12 @@ theorem C05_signer_source_shape :
     signerInputMatch = "acct.OutPoint == in.PreviousOutPoint" ∧ signerInputPick = "last" ∧
     signerVersionGate = "acct.Version >= account.VersionTaprootEnabled" ∧
     signerRawTx = "batch.BatchTX" ∧ signerMuSig2Tx = "batch.BatchTX" ∧
-    signerMuSig2PrevOuts = "batch.PreviousOutputs" := by decide
+    signerMuSig2PrevOuts = "batch.PreviousOutputs" ∧
+    -- the MuSig2 session is opened with the STORED account's script version, expiry, keys and secret
+    -- (never with the diff's new version / new expiry)
+    (signerMuSig2SessionArgs.drop 1).take 6 =
+      ["acct.Version.ScriptVersion()", "acct.Expiry", "acct.TraderKey.PubKey", "acct.BatchKey", "acct.Secret",
+       "acct.AuctioneerKey"] := by decide
 
 /-- (R) what `batchStorer.StorePendingBatch` stages per account is built from exactly these modifiers, and
 each modifier is a single unconditional assignment of its field (a modifier that silently declines to apply –
@@ -312,7 +317,7 @@ theorem C05_sig_binds_tx {α : Type} (H : Preimage → α) (hH : Function.Inject
     H (preimage t (if t then htTaproot else htP2wsh) tx idx sp) ≠
       H (preimage t (if t then htTaproot else htP2wsh) tx' idx sp') ∧
     Sig.verify k o (preimage t (if t then htTaproot else htP2wsh) tx' idx sp')
-      ⟨k, o, preimage t (if t then htTaproot else htP2wsh) tx idx sp⟩ = false := by
+      ⟨k, o, preimage t (if t then htTaproot else htP2wsh) tx idx sp, 0⟩ = false := by
   have hp : preimage t (if t then htTaproot else htP2wsh) tx idx sp ≠
       preimage t (if t then htTaproot else htP2wsh) tx' idx sp' :=
     fun h => hne (preimage_injective t tx tx' idx idx sp sp' h).1
@@ -330,7 +335,7 @@ theorem C05_sig_commits_to_all_outputs {α : Type} (H : Preimage → α) (hH : F
 /-- a signature made for the script context of one output (say the account output with the batch's NEW
 expiry) does not help to spend another one (the output actually on chain) -/
 theorem C05_sig_binds_output (k : Key) (o o' : Out) (m : Preimage) (hne : o ≠ o') :
-    Sig.verify k o' m ⟨k, o, m⟩ = false := by
+    Sig.verify k o' m ⟨k, o, m, 0⟩ = false := by
   simp [Sig.verify, hne]
 
 /-- **Validly spends the account's current output in exactly that transaction.**  The signature
@@ -339,12 +344,24 @@ key, over the sighash preimage of the batch transaction at the input spending th
 theorem C05_released_sig_spends_current_output (db : DB) (tx : Tx) (prev : List Out) (d : Diff) (σ : Sig)
     (h : SigFor db tx prev d σ) :
     ∃ a idx, getAccount db d.acct = some a ∧ tx.ins[idx]? = some a.outpoint ∧
-      Sig.verify d.acct a.out σ.msg σ = true ∧
+      Sig.verifyV d.acct a.out a.version σ.msg σ = true ∧
       σ.msg = (if a.version ≥ versionTaprootEnabled
                then preimage true htTaproot tx idx (prev.take tx.ins.length)
                else preimage false htP2wsh tx idx [a.out]) := by
-  obtain ⟨a, idx, ha, _, hin, hk, ho, hm⟩ := h
-  exact ⟨a, idx, ha, hin, by simp [Sig.verify, hk, ho], hm⟩
+  obtain ⟨a, idx, ha, _, hin, hk, ho, hv, hm⟩ := h
+  exact ⟨a, idx, ha, hin, by simp [Sig.verifyV, Sig.verify, hk, ho, hv], hm⟩
+
+/-- **The signing protocol is that of the output being spent, not of the diff.**  A signature made with the
+protocol of another account version – e.g. a MuSig2 v1.0.0-rc2 session because the batch upgrades the account
+from version 1 to 2, while the input still is the version-1 output – does not verify for the current output;
+the released one carries the STORED account's version whatever `NewVersion` the diff announces. -/
+theorem C05_sig_protocol_is_stored_version (db : DB) (tx : Tx) (prev : List Out) (d : Diff) (σ : Sig)
+    (h : SigFor db tx prev d σ) :
+    ∃ a, getAccount db d.acct = some a ∧ σ.sver = a.version ∧
+      ∀ v', v' ≠ a.version → Sig.verifyV d.acct a.out a.version σ.msg { σ with sver := v' } = false := by
+  obtain ⟨a, idx, ha, _, hin, hk, ho, hv, hm⟩ := h
+  refine ⟨a, ha, hv, fun v' hne => ?_⟩
+  simp [Sig.verifyV, hne]
 
 /-! ## Interleavings made explicit: re-proposals, rejected proposals, finalisation
 
